@@ -140,6 +140,22 @@ func beyondTag(pls []oracle.Polyline) string {
 	return ""
 }
 
+// borderTag keeps the beyond-the-image tag only for pixels within two pixels of the image border,
+// where the scanner's handling of negative coordinates shows (K4).
+func borderTag(tag string, i, j, w, h int) string {
+	if i < 2 || j < 2 || i >= w-2 || j >= h-2 {
+		return tag
+	}
+	return ""
+}
+
+func interior(i, j, w, h int) int {
+	if i < 2 || j < 2 || i >= w-2 || j >= h-2 {
+		return 0
+	}
+	return 1
+}
+
 func checkFill(r *fw.R, c fillCase) {
 	sh := shapes[c.shape]
 	dpmm := resolutions[c.res]
@@ -187,7 +203,7 @@ func checkFill(r *fw.R, c fillCase) {
 	// expected region
 	pls := transformPolys(oracle.DenseData(sh.d, 256), m)
 	px := 1 / dpmm
-	nIn, nOut, bad := 0, 0, 0
+	nIn, nOut, bad, badInterior := 0, 0, 0, 0
 	var first string
 	class := ""
 	tag := beyondTag(pls)
@@ -206,6 +222,7 @@ func checkFill(r *fw.R, c fillCase) {
 				}
 				if got.R > 4 || got.G > 4 || got.B > 4 || got.A > 4 {
 					bad++
+					badInterior += interior(i, j, wantW, wantH)
 					if first == "" {
 						class = "paints-outside"
 						first = fmt.Sprintf("pixel (%d,%d) centre (%.3f,%.3f) is outside (winding %d) but has colour %v", i, j, q.X, q.Y, oracle.Winding(pls, q), got)
@@ -227,6 +244,7 @@ func checkFill(r *fw.R, c fillCase) {
 					// interpolation space, only that the pixel is painted (opaque stops)
 					if got.A < 251 {
 						bad++
+						badInterior += interior(i, j, wantW, wantH)
 						if first == "" {
 							class = "wrong-paint-inside"
 							first = fmt.Sprintf("pixel (%d,%d) inside a gradient fill with opaque stops has alpha %d", i, j, got.A)
@@ -244,6 +262,7 @@ func checkFill(r *fw.R, c fillCase) {
 			}
 			if !(near(got.R, want[0], tol) && near(got.G, want[1], tol) && near(got.B, want[2], tol) && near(got.A, want[3], atol)) {
 				bad++
+				badInterior += interior(i, j, wantW, wantH)
 				if first == "" {
 					class = "wrong-paint-inside"
 					if got == (color.RGBA{}) {
@@ -260,7 +279,10 @@ func checkFill(r *fw.R, c fillCase) {
 	r.Count("pixels_inside", int64(nIn))
 	r.Count("pixels_outside", int64(nOut))
 	if bad > 0 {
-		r.Violate(class, fmt.Sprintf("%d pixels wrong; %s%s", bad, first, tag))
+		if badInterior > 0 {
+			tag = "" // wrong pixels away from the image border are not the border effect (K4)
+		}
+		r.Violate(class, fmt.Sprintf("%d pixels wrong (%d of them more than two pixels from the image border); %s%s", bad, badInterior, first, tag))
 	} else {
 		r.Outcome("fill-ok")
 	}
@@ -360,13 +382,13 @@ func checkStroke(r *fw.R, shapeIdx, res int, w float64, view, cap, join int) {
 			if oracle.Winding(pls, q) != 0 {
 				nIn++
 				if !(near(got.R, 0, 4) && near(got.G, 90, 4) && near(got.B, 200, 4) && near(got.A, 255, 4)) {
-					r.Violate("stroke-unpainted-inside", fmt.Sprintf("pixel (%d,%d) centre (%.3f,%.3f) is inside the stroke outline but has colour %v%s", i, j, q.X, q.Y, got, tag))
+					r.Violate("stroke-unpainted-inside", fmt.Sprintf("pixel (%d,%d) centre (%.3f,%.3f) is inside the stroke outline but has colour %v%s", i, j, q.X, q.Y, got, borderTag(tag, i, j, img.Bounds().Dx(), img.Bounds().Dy())))
 					return
 				}
 			} else {
 				nOut++
 				if got.R > 4 || got.G > 4 || got.B > 4 || got.A > 4 {
-					r.Violate("stroke-paints-outside", fmt.Sprintf("pixel (%d,%d) centre (%.3f,%.3f) is outside the stroke outline but has colour %v%s", i, j, q.X, q.Y, got, tag))
+					r.Violate("stroke-paints-outside", fmt.Sprintf("pixel (%d,%d) centre (%.3f,%.3f) is outside the stroke outline but has colour %v%s", i, j, q.X, q.Y, got, borderTag(tag, i, j, img.Bounds().Dx(), img.Bounds().Dy())))
 					return
 				}
 			}
@@ -376,6 +398,68 @@ func checkStroke(r *fw.R, shapeIdx, res int, w float64, view, cap, join int) {
 		r.NontrivialIdx()
 	}
 	r.Outcome("stroke-ok")
+}
+
+// fill and stroke in one RenderPath call: the stroke covers the fill, the fill follows the style's
+// fill rule, the stroke outline is always filled NonZero (where the strokes of two subpaths, or
+// of one self-crossing subpath, overlap the outline has winding 2).
+func checkFillStroke(r *fw.R, shapeIdx, rule, res int, w float64, view int) {
+	sh := shapes[shapeIdx]
+	dpmm := resolutions[res]
+	m := views[view].m
+	fillCol, strokeCol := color.RGBA{200, 30, 20, 255}, color.RGBA{0, 90, 200, 255}
+	style := canvas.DefaultStyle
+	style.Fill = canvas.Paint{Color: fillCol}
+	style.FillRule = rules[rule]
+	style.Stroke = canvas.Paint{Color: strokeCol}
+	style.StrokeWidth = w
+	style.StrokeCapper = canvas.ButtCap
+	style.StrokeJoiner = canvas.MiterJoin
+	ras := rasterizer.New(W, H, canvas.DPMM(dpmm), canvas.LinearColorSpace{})
+	ras.RenderPath(cv.Path(sh.d), style, m)
+	ras.Close()
+	img := ras.Image.(*image.RGBA)
+	outline := cv.Path(sh.d).Stroke(w, canvas.ButtCap, canvas.MiterJoin, canvas.PixelTolerance/dpmm)
+	spl := transformPolys(oracle.DenseData(outline.Data(), 256), m)
+	fpl := transformPolys(oracle.DenseData(sh.d, 256), m)
+	px := 1 / dpmm
+	n := [3]int{}
+	overlap := 0
+	tag := beyondTag(spl)
+	for j := 0; j < img.Bounds().Dy(); j++ {
+		for i := 0; i < img.Bounds().Dx(); i++ {
+			q := oracle.Pt{X: (float64(i) + 0.5) / dpmm, Y: H - (float64(j)+0.5)/dpmm}
+			if oracle.Dist(spl, q, true) <= px*1.001+1e-3 {
+				continue
+			}
+			sw := oracle.Winding(spl, q)
+			if sw == 0 && oracle.Dist(fpl, q, true) <= px*1.001+1e-3 {
+				continue // (under the opaque stroke the fill's boundary does not matter)
+			}
+			want, kind := color.RGBA{}, 0
+			if cv.Fills(rules[rule], oracle.Winding(fpl, q)) {
+				want, kind = fillCol, 1
+			}
+			if sw != 0 {
+				want, kind = strokeCol, 2
+				if sw%2 == 0 {
+					overlap++
+				}
+			}
+			n[kind]++
+			got := img.RGBAAt(i, j)
+			if !(near(got.R, float64(want.R), 4) && near(got.G, float64(want.G), 4) && near(got.B, float64(want.B), 4) && near(got.A, float64(want.A), 4)) {
+				r.Violate([]string{"fill-stroke-paints-outside", "fill-stroke-wrong-in-fill", "fill-stroke-wrong-in-stroke"}[kind],
+					fmt.Sprintf("pixel (%d,%d) centre (%.3f,%.3f): colour %v, expected %v (fill winding %d, stroke outline winding %d)%s", i, j, q.X, q.Y, got, want, oracle.Winding(fpl, q), oracle.Winding(spl, q), borderTag(tag, i, j, img.Bounds().Dx(), img.Bounds().Dy())))
+				return
+			}
+		}
+	}
+	if n[0] > 0 && n[2] > 0 {
+		r.NontrivialIdx()
+	}
+	r.Count("fill_stroke_pixels_where_the_stroke_outline_has_even_nonzero_winding", int64(overlap))
+	r.Outcome("fill-stroke-ok")
 }
 
 func families(tier string) []fw.Family {
@@ -391,7 +475,19 @@ func families(tier string) []fw.Family {
 	radC := []int{nres, 2, 2}
 	widths := []float64{0.8, 2}
 	radS := []int{len(shapes), nres, len(widths), len(views), 3, 3}
+	fsViews := []int{0, 1}
+	fsWidths := []float64{0.8, 2, 3}
+	radFS := []int{len(shapes), 2, nres, len(fsWidths), len(fsViews)}
 	return []fw.Family{
+		{Name: "fill+stroke in one call: shapes x {NonZero, EvenOdd} x resolutions x widths x views", N: oracle.Prod(radFS...),
+			Check: func(i int64, r *fw.R) {
+				g := oracle.Digits(i, radFS...)
+				checkFillStroke(r, g[0], g[1], g[2], fsWidths[g[3]], fsViews[g[4]])
+			},
+			Desc: func(i int64) string {
+				g := oracle.Digits(i, radFS...)
+				return fmt.Sprintf("fill %v + stroke w=%g (butt, miter) %s [%s] dpmm=%g view=%s", rules[g[1]], fsWidths[g[3]], shapes[g[0]].name, oracle.Fmt(shapes[g[0]].d), resolutions[g[2]], views[fsViews[g[4]]].name)
+			}},
 		{Name: "fill: shapes x rules x views x resolutions x paints x colour spaces", N: oracle.Prod(radF...),
 			Check: func(i int64, r *fw.R) { checkFill(r, dec(i)) },
 			Desc:  func(i int64) string { return dec(i).String() }},
